@@ -448,6 +448,9 @@ class CompaSOHaloCatalog:
                     load_subsamples = dict(A=True, B=True, rv=True, pid=True)
 
             if isinstance(load_subsamples, dict):
+                # Work on a copy: the known keys are popped below, and the caller's dict
+                # must still describe the same selection on the next load
+                load_subsamples = dict(load_subsamples)
                 load_AB = [k for k in 'AB' if load_subsamples.get(k)]  # ['A', 'B']
 
                 # Check for conflicts between rv, pos, vel. Must be done before list-ifying to distinguish False and not given.
@@ -526,17 +529,36 @@ class CompaSOHaloCatalog:
         if passthrough:
             # In passthrough mode, the fields are determined by the file contents
             raw_fields = list(halo_info_af[self.data_key])
-            raw_cleaned_fields = list(cleaned_halo_info_af[self.data_key])
+            # There is no cleaning file when loading the uncleaned catalog
+            if cleaned_halo_info_af is not None:
+                raw_cleaned_fields = list(cleaned_halo_info_af[self.data_key])
+            else:
+                raw_cleaned_fields = []
 
-            if fields == 'all':
+            if isinstance(fields, str) and fields == 'all':
                 fields = raw_fields
                 cleaned_fields = raw_cleaned_fields
+            elif isinstance(fields, str) and fields == 'DEFAULT_FIELDS':
+                # Same convention as the unpacked catalog: everything but the main progenitor info
+                fields = raw_fields
+                cleaned_fields = [r for r in raw_cleaned_fields if r in clean_dt.names]
             else:
                 if isinstance(fields, str):
                     fields = [fields]
+                requested = list(fields)
 
-                fields = [r for r in raw_fields if r in fields]
-                cleaned_fields = [r for r in raw_cleaned_fields if r in fields]
+                # The columns needed to index the subsamples must always be loaded
+                for AB in load_AB or []:
+                    requested += ['npstart' + AB, 'npout' + AB]
+                    if cleaned:
+                        requested += [
+                            'npstart' + AB + '_merge',
+                            'npout' + AB + '_merge',
+                            'N_total',
+                        ]
+
+                fields = [r for r in raw_fields if r in requested]
+                cleaned_fields = [r for r in raw_cleaned_fields if r in requested]
 
             return fields, cleaned_fields
 
@@ -663,7 +685,7 @@ class CompaSOHaloCatalog:
                 col = raw_cols[field]
                 cols[field] = np.empty((N_halos,) + col.shape[1:], dtype=col.dtype)
 
-            raw_cols = cleaned_afs[0][self.data_key]
+            raw_cols = cleaned_afs[0][self.data_key] if cleaned_afs else {}
             for field in cleaned_fields:
                 col = raw_cols[field]
                 cols[field] = np.empty((N_halos,) + col.shape[1:], dtype=col.dtype)
@@ -844,11 +866,24 @@ class CompaSOHaloCatalog:
 
         # sigmavMid
         pat = re.compile(r'sigmavMid(?P<com>_(?:L2)?com)')
-        self.halo_field_loaders[pat] = lambda m, raw, halos: np.sqrt(
-            raw['sigmav3d' + m['com']] * raw['sigmav3d' + m['com']] * zspace_to_kms**2
-            - halos['sigmavMaj' + m['com']] ** 2
-            - halos['sigmavMin' + m['com']] ** 2
-        )
+
+        def _sigmavMid_loader(m, raw, halos):
+            # Mid^2 = sigmav3d^2 - Maj^2 - Min^2. Take the difference on the stored
+            # integer ratios, where it is exact: the difference of the rounded float32
+            # squares comes out below zero (NaN) when the ratios leave nothing for
+            # the middle axis, and loses digits near that.
+            rmin = np.asarray(
+                raw['sigmavMin_to_sigmav3d' + m['com'] + '_i16'], dtype=np.int64
+            )
+            rmaj = np.asarray(
+                raw['sigmavMax_to_sigmav3d' + m['com'] + '_i16'], dtype=np.int64
+            )
+            rmid2 = int(INT16SCALE) ** 2 - rmaj**2 - rmin**2
+            return (
+                np.sqrt(rmid2) / INT16SCALE * raw['sigmav3d' + m['com']] * zspace_to_kms
+            )
+
+        self.halo_field_loaders[pat] = _sigmavMid_loader
 
         # sigmar
         pat = re.compile(r'sigmar(?P<com>_(?:L2)?com)')
@@ -1379,6 +1414,15 @@ class CompaSOHaloCatalog:
         # and way simpler: just one file, no slab divisions, no B particles, no unpacking, no cleaning.
 
         fn = Path(self.groupdir) / 'lc_pid_rv.asdf'
+
+        # The stored npstartA/npoutA of a halo file index the lc_pid_rv file of that
+        # file's own directory, and only this one particle file is loaded
+        if which:
+            for hfn in self.halo_fns:
+                if Path(hfn).parent != Path(self.groupdir):
+                    raise ValueError(
+                        f'Cannot load subsamples for halo light cone files from different directories: "{hfn}" is not indexed into "{fn}"'
+                    )
 
         with asdf.open(fn, lazy_load=True, memmap=False) as af:
             for w in which:
